@@ -235,7 +235,16 @@ func decodeConfigFile(data []byte) (configData, error) {
 	if err := json.Unmarshal(data, &f); err != nil {
 		return configData{}, fmt.Errorf("decode failed: %v", err)
 	}
-	for addr, ac := range f.Auths {
+	// Visit the entries in a fixed order, so that the result (including
+	// which error is reported for a bad file, and which credentials
+	// an ambiguous derived entry holds) doesn't depend on map iteration order.
+	addrs := make([]string, 0, len(f.Auths))
+	for addr := range f.Auths {
+		addrs = append(addrs, addr)
+	}
+	slices.Sort(addrs)
+	for _, addr := range addrs {
+		ac := f.Auths[addr]
 		if ac.Auth != "" {
 			var err error
 			ac.Username, ac.Password, err = decodeAuth(ac.Auth)
